@@ -36,7 +36,8 @@ impl EndpointHandler<Log> for Recorder {
 
 const METHODS: [Method; 3] = [Method::Get, Method::Put, Method::Patch];
 const PATHS: [&str; 8] = ["", "/", "/a", "/a/b", "/ab", "/a:b", "a", ":"];
-const PREFIXES: [&str; 3] = ["", "/p", "/a"];
+/// "/" and "/p/" end in a slash: prefix + path is plain concatenation, so "/p/" + "/a" is "/p//a", not "/p/a".
+const PREFIXES: [&str; 5] = ["", "/p", "/a", "/", "/p/"];
 
 /// Path table 0: the short paths above. Table 1: eight long paths that share their first 254 bytes, with
 /// lengths around 256 (so that prefix + path crosses 255 / 256 / 257 for every prefix) and beyond.
